@@ -1160,7 +1160,11 @@ impl<'a, I, A> Strategies<'a, I, A> {
                 for (left_val, right_val) in left.iter().zip(right.iter()) {
                     dist += (left_val - right_val).abs().powf(p);
                 }
-                dist / info.len() as f64
+                if info.is_empty() {
+                    0.0
+                } else {
+                    dist / info.len() as f64
+                }
             })
             .collect();
         dists.try_into().unwrap()
